@@ -39,7 +39,11 @@ func cmdVerify(args []string) {
 	timeout := fs.Int("t", 10000, "solver timeout ms")
 	list := fs.Bool("list", false, "list functions")
 	verbose := fs.Bool("v", false, "verbose")
+	inst := fs.String("inst", "", "generic types to instantiate, ';' separated: pkg/path.Type[int64]")
 	fs.Parse(args)
+	if *inst != "" {
+		gvc.ExtraInstances = strings.Split(*inst, ";")
+	}
 	P, err := gvc.LoadProgram(strings.Split(*pkgs, ","))
 	if err != nil {
 		fmt.Println("load error:", err)
